@@ -67,6 +67,8 @@ pub struct State {
     pub log: Vec<Ev>,
     journal: Vec<JEntry>,
     inflight: i64,
+    /// operations of every kind that were let through their Begin and have not reported their End yet
+    inflight_all: i64,
     pub trace_path: Option<String>,
     pub unsynced_at_begin: Vec<usize>,
     pub failed_injected: u64,
@@ -119,6 +121,7 @@ pub fn install(mode: Mode, loss: Loss, trace_path: Option<String>) {
         log: vec![],
         journal: vec![],
         inflight: 0,
+        inflight_all: 0,
         trace_path,
         unsynced_at_begin: vec![],
         failed_injected: 0,
@@ -229,10 +232,13 @@ fn maybe_abort(ev: &Event<'_>) {
     if !is_abort {
         return;
     }
-    // drain: let every write that was already submitted complete (bounded wait)
+    // drain: let every operation that was already let through its Begin complete (bounded wait) — submitted page
+    // writes, but also a synchronous call (unlink, resize, append, fsync) of another thread that has passed its Begin
+    // and not yet performed / finished the system call: it must not take effect AFTER the simulated power loss has
+    // reverted the un-synced effects (every other thread parks at its next Begin)
     let t0 = std::time::Instant::now();
     loop {
-        let inflight = STATE.lock().unwrap().as_ref().map_or(0, |s| s.inflight);
+        let inflight = STATE.lock().unwrap().as_ref().map_or(0, |s| s.inflight.max(s.inflight_all));
         if inflight <= 0 || t0.elapsed().as_millis() > 3000 {
             break;
         }
@@ -316,6 +322,7 @@ fn handler(ev: &Event<'_>) -> std::io::Result<()> {
                     return Err(std::io::Error::from_raw_os_error(libc::EIO));
                 }
             }
+            s.inflight_all += 1;
             // ---- journal ----
             match ev.kind {
                 Kind::Write | Kind::Append | Kind::SetLen => {
@@ -354,6 +361,9 @@ fn handler(ev: &Event<'_>) -> std::io::Result<()> {
         }
         Phase::End => {
             let idx = s.begins;
+            if s.inflight_all > 0 {
+                s.inflight_all -= 1;
+            }
             s.log.push(Ev { idx, file: file.clone(), kind: ev.kind, phase: Phase::End, offset: ev.offset, len: ev.len, site: ev.site, thread: th });
             match ev.kind {
                 Kind::Write | Kind::Append | Kind::SetLen => {
